@@ -510,7 +510,7 @@ def align(nb, na, parses):
             continue
         if hdr is not None and isdoc(x) and isdoc(y):
             s, e = span(y)
-            out.append({"what": "doc-replaced", "start": s, "end": e, "hdr": hdr, "flags": doc_flags(x, y), "op": (i, 1, [y])})
+            out.append({"what": "doc-replaced", "start": s, "end": e, "hdr": hdr, "flags": doc_flags(x, y), "op": (i, 1, [y]), "old": x["value"]})
             line += y["value"].count("\n")
             i += 1
             j += 1
@@ -524,8 +524,10 @@ def align(nb, na, parses):
         if hdr is not None and isdoc(x):
             import re
 
-            out.append({"what": "doc-removed", "start": line, "end": line, "hdr": hdr, "op": (i, 1, []),
-                        "flags": ["async-docstring-removed" if re.search(r"\basync\s+def\b", hdr["value"]) else "docstring-removed"]})
+            fl = ["async-docstring-removed" if re.search(r"\basync\s+def\b", hdr["value"]) else "docstring-removed"]
+            if x["value"].count('"' * 3) + x["value"].count("'" * 3) > 2:
+                fl.append("docstring-node-overlong")
+            out.append({"what": "doc-removed", "start": line, "end": line, "hdr": hdr, "op": (i, 1, []), "flags": fl, "old": x["value"]})
             i += 1
             continue
         out.append({"what": "unaligned", "start": line, "end": line, "hdr": hdr, "flags": ["unaligned"]})
@@ -636,7 +638,8 @@ def oracle(src: str, r: dict):
         for field, path, lineno, resynth in ast_diff(eb, ea):
             if field == "definitions":
                 # a definition vanished / appeared: only a header rewrite that cut at the wrong parenthesis / arrow can do that
-                cause = _first_flag([f for c in changes if c["what"] == "header" for f in c["flags"] if f in ("wrong-open-paren", "stray-arrow")])
+                cause = _first_flag([f for c in changes for f in c["flags"]
+                                     if (c["what"] == "header" and f in ("wrong-open-paren", "stray-arrow")) or f == "docstring-node-overlong"])
             elif field == "statements" and not path:
                 # a new module-level statement: a docstring appended after a header node that swallowed the rest of the file
                 cause = _first_flag([f for c in changes if c["what"] != "header" for f in c["flags"] if f == "header-last-node"])
@@ -679,7 +682,16 @@ def comment_cause(cb, ca, changes):
                 in_hdr[cm] += 1
             for cm in comments_in_text(c["after"]):
                 in_hdr[cm] -= 1
-    return "header-resynth" if all(in_hdr[k] >= v for k, v in lost.items()) else "none"
+    if all(in_hdr[k] >= v for k, v in lost.items()):
+        return "header-resynth"
+    import re
+
+    in_doc = Counter()
+    for c in changes:
+        if "docstring-node-overlong" in c["flags"] and "old" in c:
+            for m in re.finditer(r"#[^\n]*", c["old"]):
+                in_doc[m.group(0).rstrip()] += 1
+    return "docstring-node-overlong" if all(in_hdr[k] + in_doc[k] >= v for k, v in lost.items()) else "none"
 
 
 def comments_in_text(text):
@@ -720,6 +732,9 @@ WITNESSES = [
     ("w-deco-paren-and-arrow", ["C07-paren-and-arrow-decorator", "C07-paren-and-arrow-lines"], "@dec()  # x -> y \ndef g(a: int):\n    return a\n", ("rest", False, None), None),
     ("w-docstring-then-comment", ["C07-docstring-node-overlong"],
      'class C:\n    """Doc."""  # noqa\n    def f(self, a):\n        """F doc."""\n        return a\n\ndef h(a):\n' + REST_DOC + "    return a\n", ("rest", True, None), None),
+    ("w-docstring-then-comment-async", ["C07-docstring-node-overlong-definitions", "C07-docstring-node-overlong-comments", "C07-docstring-node-overlong-lines"],
+     'async def g():\n    """Summary."""  # noqa\n    x = 1\n\n\ndef h(a):\n' + REST_DOC + "    return a\n", ("rest", True, None), None),
+    ("w-deco-paren-and-arrow-invalid", ["C07-paren-and-arrow-invalid"], "@a.b  # x -> y\n@dec() \ndef g(a: int):\n    return a\n", ("rest", False, None), None),
     ("w-header-comment", ["C07-resynth-comment"], "def f(\n    a,  # first\n):\n" + REST_DOC + "    pass\n", ("rest", True, None), "def f(a: int):"),
     ("w-tail-comment", ["C07-tail-invalid"], "def g(a):  # c\n    return a\n", ("rest", False, None), None),
     ("w-tail-docstring", ["C07-tail-statements", "C07-tail-lines"], 'def g(a):  # c\n  """Doc.\n\n  :param a: the a\n  :type a: ```int```\n  """\n  return a\n',
